@@ -10,7 +10,7 @@ MODE="${1:-quick}"
 cd "$VERIF_DIR/harness" || exit 2
 MODFILE=$(verif_modfile)
 case "$ID" in
-  C09|C14) INSTR=1 ;;
+  C09|C12|C14) INSTR=1 ;;
   *) INSTR=0 ;;
 esac
 # always rebuild from /repo's current working tree (the Go build cache makes this ~1-2 s when unchanged)
@@ -29,4 +29,29 @@ fi
 if [ "$MODE" = "--replay" ]; then
   exec "$BIN" -replay "${2:?replay file}"
 fi
-exec "$BIN" "$ID" "$MODE"
+# thorough tier of the schedule-explored properties: free-running race-detector pass first
+# (supplementary sampling on an UNinstrumented -race build; it can only add reports)
+RACE_RC=0
+if [ "$MODE" = thorough ] && { [ "$ID" = C09 ] || [ "$ID" = C14 ]; }; then
+  RBIN="$VERIF_BUILD/vcheck-race"
+  if go build -modfile="$MODFILE" -race -tags verif -o "$RBIN" ./cmd/vcheck 2>"$VERIF_BUILD/race-build.log"; then
+    rout=$(GORACE="halt_on_error=1 exitcode=66" GOMAXPROCS=8 "$RBIN" -racepass "$ID" -iters 20 2>&1); rrc=$?
+    if [ $rrc -eq 66 ]; then
+      mkdir -p "$VERIF_DIR/replays"; rp="$VERIF_DIR/replays/$ID-racepass.txt"; echo "$rout" > "$rp"
+      echo "VIOLATION property=$ID replay=$rp"
+      echo "  signature: $ID/race-detector (free-running -race pass; re-run: GORACE=halt_on_error=1 $RBIN -racepass $ID)"
+      echo "$rout" | grep -A12 "DATA RACE" | head -30 | sed 's/^/  /'
+      RACE_RC=1
+      export VERIF_RACEPASS="the Go race detector reported a data race (report in $rp)"
+    elif [ $rrc -eq 0 ]; then
+      export VERIF_RACEPASS="$(echo "$rout" | tail -1)"
+    else
+      export VERIF_RACEPASS="race pass could not run (exit $rrc)"
+    fi
+  else
+    export VERIF_RACEPASS="race build failed: $(tail -1 "$VERIF_BUILD/race-build.log")"
+  fi
+fi
+"$BIN" "$ID" "$MODE"; rc=$?
+[ $RACE_RC -eq 1 ] && [ $rc -eq 0 ] && rc=1
+exit $rc
